@@ -1,7 +1,7 @@
 SPECIFICATION GenSpec
 CONSTANTS
   Callers = {"k1","k2"}
-  Reqs = {"r1","r2","n1","x3"}
+  Reqs = {"r1","r2","n1","x1"}
   CallReqs = {"r1","r2"}
   CancelOf <- Cancel1
   DupOf <- NoDupOf
